@@ -24,7 +24,12 @@ Case gen_c11(Rng &r, const Tier &t, const std::vector<std::string> &doms) {
   c.domain = doms[r.below(doms.size())];
   const DomainInfo *di = find_domain(c.domain);
   GenConfig::Profile prof = (di->caps & CAP_BOOL) ? GenConfig::NUMBOOL : GenConfig::NUM;
+  if (di->caps & CAP_ARRAY)
+    prof = GenConfig::ARRAY;
   GenConfig gc = random_gen_config(r, prof, false);
+  gc.arr_assign = false; // backward_array_assign is declared "not implemented"
+  if (prof == GenConfig::ARRAY && !(di->caps & CAP_BOOL))
+    gc.nbools = 0;
   restrict_for_domain(gc, *di);
   gc.no_exit = false; // the analysis needs an exit block
   gc.n_asserts = std::max(gc.n_asserts, 2);
@@ -209,7 +214,7 @@ Outcome check_c11(const Case &c, Stats &st) {
 std::vector<std::string> bwd_domains(const Tier &t) {
   // the property quantifies over the domains that implement backward operations;
   // constants, signs, powerset, packing, ... declare them "not implemented"
-  return domains_with(CAP_BACKWARD, CAP_ARRAY | CAP_REGION | CAP_BV, !t.thorough);
+  return domains_with(CAP_BACKWARD, CAP_REGION | CAP_BV, !t.thorough);
 }
 PropertyRegistrar reg_c11({"C11", "sim_prog", gen_c11, check_c11, bwd_domains});
 
